@@ -112,7 +112,7 @@ func (cs *caseState) initTwins() {
 }
 
 func (cs *caseState) knownTwinID(id string) bool { // cs.mu held
-	return len(cs.invByID[id]) > 0
+	return len(cs.invByID[id]) > 0 || len(cs.bInv[id]) > 0 // ... or of a Broadcast call (bcast_test.go)
 }
 
 // twinArrive: the call waits until every call of its group is about to start (or twinGateCap); the last one keeps the
